@@ -207,6 +207,115 @@ class G:
             f"(async function () {{ var v = await new P{k}(function (r) {{ r({k}); }}); print('{t}:aw-sub', v); }})();"
         )
 
+    # ---- second set of task kinds (programs named gen2:*) ------------------------------------
+    def task_gen_finally(self, t):
+        k = self.uid()
+        fin = self.pick([f"print('{t}:fin-a{k}'); await {self.source(t)}; print('{t}:fin-b{k}');",
+                         f"print('{t}:fin-a{k}'); yield 'from-finally{k}'; print('{t}:fin-b{k}');",
+                         f"print('{t}:fin{k}');",
+                         f"print('{t}:fin{k}'); return 'finally-wins{k}';"])
+        body = f"try {{ print('{t}:g-start'); yield {self.source(t)}; print('{t}:g-mid'); yield {k}; print('{t}:g-late'); }} finally {{ {fin} }} print('{t}:g-after'); return 'done{k}';"
+        show = f"function (r) {{ print('{t}:res', JSON.stringify(r)); }}, function (e) {{ print('{t}:rej', e); }}"
+        s = f"var g{k} = (async function* () {{ {body} }})();\n"
+        calls = [f"g{k}.next().then({show});"]
+        for i in range(self.r.randrange(1, 5)):
+            c = self.r.randrange(5)
+            if c <= 1:
+                calls.append(f"g{k}.next('n{i}').then({show});")
+            elif c == 2:
+                rv = self.pick(["'R'", self.any_source(t)])
+                calls.append(f"g{k}.return({rv}).then({show});")
+            elif c == 3:
+                calls.append(f"g{k}.throw('T{i}').then({show});")
+            else:
+                calls.append(f"ticks({self.r.randrange(1, 4)}, '{t}d{i}').then(function () {{ return g{k}.return('late{i}'); }}).then({show});")
+        return s + "\n".join(calls)
+
+    def task_forawait_exit(self, t):
+        k = self.uid()
+        wrap = self.pick(['Promise.resolve', 'thenable2', ''])
+        ret = self.pick(['{ done: true }', 'Promise.resolve({ done: true })', 'thenable2({ done: true })'])
+        sval = self.pick(['++this.i', 'Promise.resolve(++this.i)', "thenable(++this.i, '" + t + "v')"])
+        src = self.pick([
+            f"(async function* () {{ try {{ yield 1; yield {self.source(t)}; yield 3; }} finally {{ print('{t}:src-fin'); await null; print('{t}:src-fin2'); }} }})()",
+            f"({{ i: 0, [Symbol.asyncIterator]() {{ return this; }}, next() {{ print('{t}:it-next'); return {wrap}({{ value: ++this.i, done: this.i > 3 }}); }}, return(v) {{ print('{t}:it-return'); return {ret}; }} }})",
+            f"({{ i: 0, [Symbol.iterator]() {{ return this; }}, next() {{ print('{t}:sit-next'); return {{ value: {sval}, done: this.i > 3 }}; }}, return(v) {{ print('{t}:sit-return'); return {{ done: true }}; }} }})",
+            f"[{self.source(t)}, {self.any_source(t)}, {self.source(t)}]",
+        ])
+        exit_ = self.pick(["break;", "continue;", f"throw 'loop{k}';", f"return 'early{k}';", f"await {self.source(t)};", ""])
+        return (f"(async function () {{ try {{ for await (var x of {src}) {{ print('{t}:item', x); if (x === 2) {{ {exit_} }} print('{t}:item-end', x); }} print('{t}:loop-done'); }} "
+                f"catch (e) {{ print('{t}:loop-caught', e instanceof Error ? e.name : e); }} finally {{ print('{t}:outer-fin'); }} return 'ret{k}'; }})()"
+                f".then(function (v) {{ print('{t}:end', v); }}, function (e) {{ print('{t}:fail', e); }});")
+
+    def task_yieldstar_custom(self, t):
+        k = self.uid()
+        wrap = self.pick(['Promise.resolve', 'thenable2', ''])
+        ret = self.pick(["{ done: true, value: 'ir' }", "Promise.resolve({ done: true, value: 'ir' })", "{ done: false, value: 'not-yet' }"])
+        sval = self.pick(['++this.i', 'Promise.resolve(++this.i)'])
+        which = self.r.randrange(3)
+        inner = ([
+            f"({{ i: 0, [Symbol.asyncIterator]() {{ return this; }}, next(v) {{ print('{t}:in-next', v); return {wrap}({{ value: 'i' + (++this.i), done: this.i > 2 }}); }}, return(v) {{ print('{t}:in-return', v); return {ret}; }}, throw(e) {{ print('{t}:in-throw', e); return {{ done: true, value: 'it' }}; }} }})",
+            f"({{ i: 0, [Symbol.iterator]() {{ return this; }}, next(v) {{ print('{t}:sin-next', v); return {{ value: {sval}, done: this.i > 2 }}; }}, return(v) {{ print('{t}:sin-return', v); return {{ done: true, value: 'sr' }}; }} }})",
+            f"(function* () {{ try {{ var a = yield 's1'; print('{t}:sg-got', a); yield Promise.resolve('s2'); }} finally {{ print('{t}:sg-fin'); }} }})()",
+        ])[which]
+        show = f"function (r) {{ print('{t}:res', JSON.stringify(r)); }}, function (e) {{ print('{t}:rej', e instanceof Error ? e.name : e); }}"
+        s = f"var g{k} = (async function* () {{ var r = yield* {inner}; print('{t}:delegate-result', r); return 'outer-done'; }})();\n"
+        calls = []
+        for i in range(self.r.randrange(2, 6)):
+            c = self.r.randrange(6)
+            if c <= 2:
+                calls.append(f"g{k}.next('n{i}').then({show});")
+            elif c <= 4 or which == 1:
+                # (a sync iterator without `throw`: ES2025 changed what .throw() does, node 20 has the old rule)
+                calls.append(f"g{k}.return('R{i}').then({show});")
+            else:
+                calls.append(f"g{k}.throw('T{i}').then({show});")
+        return s + "\n".join(calls)
+
+    def task_odd_thenables(self, t):
+        k = self.uid()
+        th = self.pick([
+            f"{{ then(res) {{ print('{t}:th-called'); Promise.resolve().then(function () {{ print('{t}:th-late'); res({k}); }}); }} }}",
+            f"{{ then(res, rej) {{ print('{t}:th-called'); res({k}); res('twice'); rej('ignored'); }} }}",
+            f"{{ then(res) {{ print('{t}:th-called'); res({k}); throw 'after-resolve'; }} }}",
+            f"{{ then(res) {{ print('{t}:th-called'); throw 'before-resolve{k}'; }} }}",
+            f"{{ then(res) {{ print('{t}:th-called'); res({{ then(r2) {{ print('{t}:th-inner'); r2({k}); }} }}); }} }}",
+            f"(function () {{ var p = Promise.resolve({k}); p.constructor = function () {{}}; return p; }})()",
+            f"(function () {{ var p = Promise.resolve({k}); Object.defineProperty(p, 'then', {{ value: function (a, b) {{ print('{t}:own-then'); return Promise.prototype.then.call(this, a, b); }} }}); return p; }})()",
+        ])
+        use = self.pick([
+            f"(async function () {{ var v = await {th}; print('{t}:awaited', v); return v; }})()",
+            f"Promise.resolve({th})",
+            f"new Promise(function (r) {{ r({th}); }})",
+            f"Promise.resolve().then(function () {{ return {th}; }})",
+            f"Promise.all([{th}, {self.source(t)}]).then(function (v) {{ return JSON.stringify(v); }})",
+            f"Promise.race([{th}, {self.source(t)}])",
+            f"Promise.resolve(1).finally(function () {{ return {th}; }})",
+            f"(async function* () {{ yield {th}; }})().next().then(function (r) {{ return JSON.stringify(r); }})",
+        ])
+        return f"{use}.then(function (v) {{ print('{t}:end', v); }}, function (e) {{ print('{t}:fail', e); }});"
+
+    def program2(self):
+        n = self.r.randrange(2, 5)
+        parts = []
+        for i in range(n):
+            t = "ABCDEF"[i]
+            c = self.r.randrange(10)
+            if c <= 1:
+                parts.append(self.task_gen_finally(t))
+            elif c <= 3:
+                parts.append(self.task_forawait_exit(t))
+            elif c <= 5:
+                parts.append(self.task_yieldstar_custom(t))
+            elif c <= 7:
+                parts.append(self.task_odd_thenables(t))
+            elif c == 8:
+                parts.append(self.task_async(t))
+            else:
+                parts.append(self.task_chain(t))
+        helpers2 = "function thenable2(v) { return { then(res) { res(v); } }; }\n"
+        return HELPERS + helpers2 + "\n".join(parts) + "\nprint('sync-end');\n"
+
     def program(self):
         n = self.r.randrange(2, 6)
         parts = []
@@ -236,6 +345,9 @@ def run_node(node, src):
         return None, "unparsable output"
 
 
+SET2 = os.environ.get("C16_SET") == "2"
+
+
 def main():
     node, count = sys.argv[1], int(sys.argv[2])
     seed = int(sys.argv[3]) if len(sys.argv) > 3 else 20260922
@@ -243,13 +355,13 @@ def main():
     i = 0
     while len(progs) < count and i < count * 3:
         g = G(random.Random(seed * 1000003 + i))
-        src = g.program()
+        src = g.program2() if SET2 else g.program()
         i += 1
         exp, err = run_node(node, src)
         if exp is None or len(exp) < 3:
             skipped += 1
             continue
-        progs.append({"name": f"gen:{i - 1}", "src": src, "expected": exp})
+        progs.append({"name": f"{'gen2' if SET2 else 'gen'}:{i - 1}", "src": src, "expected": exp})
     out = sys.argv[4] if len(sys.argv) > 4 else "/verif/corpus/c16/generated.json"
     json.dump({"note": "grammar-generated promise/async programs; expected traces per ECMAScript job ordering (authoring-time cross-check with V8, node v20)", "programs": progs}, open(out, "w"), indent=0)
     print(len(progs), "programs written,", skipped, "skipped (node error / trivial)")
